@@ -60,14 +60,17 @@ def _stmts(depth, dim, top=False):
     write = st.builds(lambda o, d, e: {"s": "write", "o": o, "data": d, "elem": e}, idx, ints, st.booleans())
     apply_ = st.builds(lambda t, o: {"s": "apply", "t": t, "o": o}, idx, idx)
     prop = st.builds(lambda h, r, l: {"s": "prop", "h": h, "r": r, "l": l}, idx, idx, st.none() | idx)
+    # objects derived from others: the state of an evolution at a time, a Cartesian component of a dipole operator
+    derive = st.builds(lambda o, k: {"s": "derive", "o": o, "k": k}, idx, st.integers(0, 3))
     exc = st.one_of(st.builds(lambda o: {"s": "badwrite", "o": o}, idx),
                     # a constructor call that the library refuses (non-square data), caught by the program
                     st.just({"s": "badctor"}),
                     st.builds(lambda n: {"s": "raise", "levels": n}, st.sampled_from([1, 1, 2])))
     # weights: exceptional statements end a block, keep them rare (about one in twelve leaves)
-    leaf = st.integers(0, 11).flatmap(
+    leaf = st.integers(0, 13).flatmap(
         lambda k: exc if k == 0 else (create if k <= 3 else (read if k <= 6 else (write if k <= 8 else
-                                                                                  (apply_ if k <= 10 else prop)))))
+                                                                                  (apply_ if k <= 10 else
+                                                                                   (prop if k <= 12 else derive))))))
     if depth <= 0:
         return st.lists(leaf, min_size=1, max_size=5)
     inner = _stmts(depth - 1, dim)
@@ -315,8 +318,11 @@ class Machine(object):
             self.dead = True
 
     # -- statements -------------------------------------------------------------
-    def pick(self, i, kinds):
+    def pick(self, i, kinds, as_context=False):
         cand = [o for o in self.pool if o.kind in kinds and not o.protected]
+        if as_context and not self.cplx:
+            # in programs with real contexts a state taken out of an evolution (complex valued) does not define one
+            cand = [o for o in cand if not o.extra.get("complex_valued")]
         return cand[i % len(cand)] if cand else None
 
     def run_block(self, block):
@@ -469,6 +475,31 @@ class Machine(object):
             self.pool.append(new)
             ctx.label("prop:" + ("lind" if lind else "closed"))
             self.read(new, "propagated-dynamics", where="evol")
+        elif s == "derive":
+            src = self.pick(stm["o"], ["evol", "tdm"])
+            if not src or src.protected:
+                return
+            if len(self.T) > 1:
+                src.touched_inside = True
+            try:
+                if src.kind == "evol":
+                    ti = stm["k"] % src.ref.shape[0]
+                    live = src.live.at(float(src.live.TimeAxis.data[ti]))
+                    new = Obj("dm", live, numpy.array(src.ref[ti]), {"complex_valued": True})
+                else:
+                    n = stm["k"] % 3
+                    live = src.live.get_component(n)
+                    new = Obj("sa", live, numpy.array(src.ref[:, :, n]).astype(complex))
+            except Exception as e:
+                ctx.fail("derive/raises", src.kind, exc=type(e).__name__, msg=str(e)[:150])
+                self.dead = True
+                return
+            new.touched_inside = len(self.T) > 1
+            if len(self.T) > 1:
+                self.created_inside += 1
+            self.pool.append(new)
+            ctx.label("derive:" + src.kind + (":inside" if len(self.T) > 1 else ":outside"))
+            self.read(new, "derived-object", where=src.kind + "-derived")
         elif s == "with":
             self.exec_with(stm)
 
@@ -479,7 +510,7 @@ class Machine(object):
 
     def exec_with(self, stm):
         qr, ctx = self.qr, self.ctx
-        op = self.pick(stm["o"], ["sa", "ham", "dm"])
+        op = self.pick(stm["o"], ["sa", "ham", "dm"], as_context=True)
         if op is None:
             return
         # protection only in the library's own pattern: at top level, where the stored representation of the
